@@ -628,7 +628,7 @@ def snapshot(f, objs):
 # ---- call candidates -------------------------------------------------------------------
 
 PRIMS = ["zz_val", 2.5, 7, True, [1.0, 2.0, 3.0], ["mV", "s"], ["a", "b"], "mV", None, "tagged", [0.5, 1.0], 0,
-         [[0.0, 0.5], [1.0, 1.0]], {"$odml": "int"}, {"$odml": "text"}, {"$odml": "float"}]
+         [[0.0, 0.5], [1.0, 1.0]], {"$odml": "int"}, {"$odml": "text"}, {"$odml": "float"}, [3]]
 BY_NAME = {
     "name": ["zz_new"], "type_": ["zz.type"], "array_type": ["zz.type"],
     "data": [[1.0, 2.0, 3.0], [4, 5], ["x", "y"], "$DataArray"],
@@ -651,6 +651,10 @@ SPECIAL = {
     "link_data_array": [["$DataArray", [0]], ["$DataArray", [-1]]],
     "link_data_frame": [["$DataFrame", 1]],
     "copy_section": [["$Section", True, False, "zz_copy"], ["$Section", False, True, "zz_copy2"]],
+    # calls whose argument must fit the object they are made on: built from the object's own data
+    "write_direct": [[{"$self": "read_rows", "args": [[1, 0]]}], [{"$selfdata": True}]],
+    "__setitem__": [[0, {"$self": "read_rows", "args": [[1]], "index": 0}]],
+    "append": [[{"$self": "read_rows", "args": [[0]]}]],
 }
 
 
@@ -666,23 +670,29 @@ def _expand(val, refs):
     if isinstance(val, str) and val.startswith("$"):
         if val == "$*":
             return [{"$ref": ps[-1]} for cn, ps in sorted(refs.items()) if cn not in ("File",)]
-        return [{"$ref": p} for p in refs.get(val[1:], [])[-2:]]
+        ps = refs.get(val[1:], [])
+        return [{"$ref": p} for k, p in enumerate(ps) if k == 0 or k >= len(ps) - 2]   # the first (shortest path) and the last two
     if isinstance(val, list) and len(val) == 1 and isinstance(val[0], str) and val[0].startswith("$"):
         return [[x] for x in _expand(val[0], refs)]
     return [val]
 
 
-def _materialise(f, v):
+def _materialise(f, v, o=None):
     if isinstance(v, dict) and "$ref" in v:
         return resolve(f, v["$ref"])
+    if isinstance(v, dict) and "$self" in v:        # a value read from the object the call is made on
+        r = getattr(o, v["$self"])(*v.get("args", []))
+        return r[v["index"]] if "index" in v else r
+    if isinstance(v, dict) and "$selfdata" in v:    # the object's own data, changed
+        return o[:] + 1
     if isinstance(v, dict) and "$odml" in v:
         from nixio.property import OdmlType
         return OdmlType(v["$odml"])
     if isinstance(v, dict):
         return {k: (str if x == "str" else float if x == "float" else x) for k, x in v.items()}
     if isinstance(v, list):
-        return [(_materialise(f, x) if not (isinstance(x, list) and x and isinstance(x[0], str) and len(x) == 2
-                                           and isinstance(x[1], float)) else tuple(x)) for x in v]
+        return [(_materialise(f, x, o) if not (isinstance(x, list) and x and isinstance(x[0], str) and len(x) == 2
+                                              and isinstance(x[1], float)) else tuple(x)) for x in v]
     return v
 
 
@@ -772,13 +782,13 @@ def do_call(f, path, spec):
     o = resolve(f, path)
     kind, name, arg = spec
     if kind == "set":
-        setattr(o, name, _materialise(f, arg))
+        setattr(o, name, _materialise(f, arg, o))
         return None
     if isinstance(arg, dict):
-        args = [_materialise(f, a) for a in arg.get("args", [])]
-        kw = {k: _materialise(f, v) for k, v in arg.get("kw", {}).items()}
+        args = [_materialise(f, a, o) for a in arg.get("args", [])]
+        kw = {k: _materialise(f, v, o) for k, v in arg.get("kw", {}).items()}
     else:
-        args = [_materialise(f, a) for a in arg]
+        args = [_materialise(f, a, o) for a in arg]
         kw = {}
     if name == "__delitem__" and args == ["$name0"]:
         args = [o[0].name]
